@@ -1,5 +1,6 @@
-#!/bin/sh
+#!/bin/bash
 # Build the framework offline from files on disk only.
 set -e
-cd "$(dirname "$0")"
-exit 0
+cd "$(dirname "$0")/harness"
+export CARGO_NET_OFFLINE=true
+cargo build --release --offline -p mc 2>&1 | tail -3
